@@ -329,6 +329,19 @@ def check_selection(run, A):
             src_ok = perms and any(x is perms[0] for x in walk_terms(sel_arr))
             mp_ok = bool(src_ok)
             mp_def = node
+    # ... for EVERY enumerated selection: the running index p covers the first axis of the candidate array
+    if sel_arr is not None and mp_ok:
+        lp_ = [idx[0] for idx, val, node in indexed_values(g) if node is mp_def and len(idx) == 1]
+        ext = index_extent(lp_[0]) if lp_ else None
+        full = False
+        if isinstance(ext, T):
+            e0 = strip_views(ext)
+            full = (e0.op == 'sub' and const_val(e0.args[1]) == 0 and strip_views(e0.args[0]).op == 'attr' and strip_views(e0.args[0]).args[1] == 'shape'
+                    and strip_views(strip_views(e0.args[0]).args[0]) is sel_arr) or (is_call_to(e0, 'builtin.len') and strip_views(call_arg(e0, 0)) is sel_arr)
+        elif isinstance(ext, tuple) and ext[0] == 'len':
+            full = isinstance(ext[1], T) and strip_views(ext[1]) is sel_arr
+        run.check(full, 'R-SEL', 'output_sxr: the captured power is evaluated for every enumerated selection', fn.loc(mp_def), '',
+                  'the loop over the candidates does not run over the first axis (all rows) of the enumerated selections', construct=f'R-SEL::{q}::all-candidates')
     used_ok = False
     all_terms = [x for e in g.events if e.term is not None for x in walk_terms(e.term)] + list(walk_terms(g.ret))
     if sel_arr is not None and am:
@@ -469,6 +482,50 @@ def check_snr(run, A):
     run.check(ok, 'FORM', 'get_snr: 10 log10(P_X / P_N)', fn.loc(), '', 'get_snr is not 10*log10(power(X)/power(N))', construct=f'FORM::{q}::ratio')
 
 
+def check_power_helper(run, A):
+    """FORM: the power every SXR / SNR quantity is built from is the mean of |x|^2 over the requested axis (any spelling of |x|^2), and set_snr applies its
+    factor to the NOISE by multiplication (in place or returned next to the untouched target)."""
+    from ..walk import abs_square_operand
+    q = S + 'get_variance_for_zero_mean_signal'
+    fn = A.prog.func(q)
+    g = A.graphs.get(fn)
+    rets = [strip_views(x) for x in ret_alts(g)]
+    ok = bool(rets)
+    for r in rets:
+        okr = is_call_to(r, 'numpy.mean') and strip_views(call_arg(r, 1, 'axis')).op == 'param' and strip_views(call_arg(r, 1, 'axis')).args[0] == 'axis'
+        if okr:
+            for alt in unwrap_gamma(call_arg(r, 0)):          # the spelling may be selected (complex / real input) before one shared mean
+                x = abs_square_operand(alt)
+                okr = okr and x is not None and data_derives(x, 'X')
+        ok = ok and okr
+    run.check(ok, 'FORM', 'get_variance_for_zero_mean_signal: mean of |X|^2 over `axis`', fn.loc(), '', 'a return path is not np.mean(|X|^2, axis=axis, keepdims=keepdims)',
+              construct=f'FORM::{q}::mean-square')
+    q = S + 'set_snr'
+    fn = A.prog.func(q)
+    g = A.graphs.get(fn)
+    pw = [t for e in g.events if e.term is not None for t in walk_terms(e.term) if t.op == 'binop' and t.args[0] == 'Pow' and const_val(t.args[1]) == 10]
+    if not pw:
+        raise AnalysisError('set_snr: factor 10 ** (...) not found')
+    uses = [t for e in g.events if e.term is not None for t in walk_terms(e.term) if t.op in ('binop', 'iop') and t.args[0] in ('Mult', 'Div')
+            and any(strip_views(a) is pw[0] for a in t.args[1:])] + \
+           [t for t in walk_terms(g.ret) if t.op in ('binop', 'iop') and t.args[0] in ('Mult', 'Div') and any(strip_views(a) is pw[0] for a in t.args[1:])]
+    ok = bool(uses)
+    for t in uses:
+        other = [a for a in t.args[1:] if strip_views(a) is not pw[0]]
+        ok = ok and t.args[0] == 'Mult' and len(other) == 1 and strip_views(other[0]).op == 'param' and strip_views(other[0]).args[0] == 'N'
+    run.check(ok, 'FORM', 'set_snr: the NOISE is multiplied by the factor', fn.loc(), '', 'the factor is not applied as N * factor (in place or in the returned pair)',
+              construct=f'FORM::{q}::apply')
+    cur = [e.term for e in g.events if e.kind == 'call' and call_parts(e.term)[0] == S + 'get_snr']
+    okk = bool(cur)
+    for c in cur:
+        ax, kd = call_arg(c, None, 'axis'), call_arg(c, None, 'keepdims')
+        okk = okk and ax is not None and strip_views(ax).op == 'param' and strip_views(ax).args[0] == 'axis' and kd is not None and const_val(kd) is True \
+            and strip_views(call_arg(c, 0)).op == 'param' and strip_views(call_arg(c, 0)).args[0] == 'X' and strip_views(call_arg(c, 1)).op == 'param' and strip_views(call_arg(c, 1)).args[0] == 'N'
+    run.check(okk, 'FORM', 'set_snr: the current SNR is measured on (X, N) over the same axis and keeps that axis', fn.loc(), '',
+              'the default current_snr is not get_snr(X, N, axis=axis, keepdims=True): the factor no longer broadcasts against the noise per leading index',
+              construct=f'FORM::{q}::current-snr')
+
+
 def check(run):
     A = run.A
     from ..opt import check_optional_truthiness, check_params_reach, check_forwarding, check_stale_loop_variables, check_argument_names, check_none_use
@@ -491,3 +548,4 @@ def check(run):
     check_return_dict(run, A)
     check_si_sdr(run, A)
     check_snr(run, A)
+    check_power_helper(run, A)
